@@ -5,6 +5,8 @@
 // and a scan that finds no terminator runs into the guard page.
 //   <op> <variant> <off> <a> <b> <hex window bytes> <schedule>     schedule: i:off:byte,... or -
 //   variants: val <elsz> | ptr <elsz> | range <elsz> <count> | stru | strs | cmda <num>
+//             ptrc <elsz> : copy_and_verify on a POINTER CELL in the window (a tainted_volatile<T*>) whose value designates
+//             an object elsewhere in the window: the pointer is fetched ONCE
 //             cvba <size> | cva : copy_and_verify_buffer_address / copy_and_verify_address on a POINTER CELL that lies in
 //             the window at <off> (a tainted_volatile<char*>); for these the first consultation of the back end during the
 //             range check counts as one more interleave point
@@ -55,6 +57,7 @@ static void hook(const char*)
 static bool g_be_seen = false;
 static void be_hook(const char* site)
 {
+  if (std::strcmp(site, "be.same") != 0) return;      // only the consultation inside the range check counts here
   if (!g_be_seen) { g_be_seen = true; hook(site); }
 }
 
@@ -167,6 +170,15 @@ static std::string run_case(const toks_t& t)
       char* c = rlbox::copy_memory_or_deny_access(*g_sb, p, a, false, copied);
       out = inspect(c, a) + " alloc=" + std::to_string(a) + (copied ? "" : " NOTCOPIED");
       std::free(c);
+    } else if (variant == "ptrc") {
+      out = by_size(a, [&](auto tg) {
+        using T = typename decltype(tg)::type;
+        auto pp = g_sb->UNSAFE_accept_pointer(reinterpret_cast<T**>(g_win + off));
+        auto& cellref = *pp;
+        std::string o = "NULLPTR";
+        cellref.copy_and_verify([&](std::unique_ptr<T> v) { if (v) o = inspect(v.get(), sizeof(T)); return 0; });
+        return o;
+      });
     } else if (variant == "cvba" || variant == "cva") {
       auto pp = g_sb->UNSAFE_accept_pointer(reinterpret_cast<char**>(g_win + off));
       auto& cellref = *pp;      // tainted_volatile<char*>&: the pointer itself lives in sandbox memory
